@@ -114,6 +114,77 @@ PROPS = {
                 "distinct = distinct op lines",
         "assumptions": ["u32/usize modelled as Nat (no operation overflows for label_len <= 2^32-1)"],
     },
+    "C01": {
+        "thm_module": ["AkdModel.Thm.C01a"],
+        "theorems": ["Akd.C01." + t for t in ["insert1_wf", "insert1_leaves", "wf_prefixFree", "wf_unique", "ofLeaves_spec",
+                                              "ofLeaves_perm", "rootHash_perm", "rootHash_injective"]],
+        "streams": ["l1.dir.c01", "l1.trie"],
+        "rule": "random publish histories through the real Directory (batches of 0..12 from a label pool with the empty, "
+                "1-byte, 300-byte and prefix-related labels; empty/short/2 KiB values; 30% re-submissions; duplicate-label "
+                "batches), both configurations; after EVERY publish: returned EpochHash, get_epoch_hash, the full database dump "
+                "(every node record with previous version, epoch metadata, value states) compared with the model, and the "
+                "oracle line spec.root: real root hash vs the canonical trie over the specification's leaf set "
+                "(Spec.leaves of the history) evaluated with the real hash. Plus the l1.trie stream (crafted 256-bit labels "
+                "sharing prefixes of every length, decompression at every depth and byte boundary).",
+        "assumptions": ["VRF outputs taken from the real HardCodedAkdVRF as an oracle table; collision-free on the inputs in play"],
+    },
+    "C02": {
+        "thm_module": ["AkdModel.Thm.C05"],
+        "theorems": ["Akd.C05.membership_complete", "Akd.C05.membership_complete_leaf", "Akd.C05.nonmembership_complete"],
+        "streams": ["l1.dir.c02"],
+        "rule": "histories as in C01 with a label updated in every epoch (versions 1,2,3,... crossing powers of two); after every "
+                "publish, for EVERY label of the pool (published or not): the real LookupProof compared field by field with the "
+                "model's, and the oracle line spec.lookup: result of the real lookup_verify vs (epoch of latest update, version "
+                "count, latest value) read off the specification; unpublished labels must fail",
+        "assumptions": [],
+    },
+    "C03": {
+        "thm_module": ["AkdModel.Thm.C05", "AkdModel.Thm.C08"],
+        "theorems": ["Akd.C05.membership_complete", "Akd.C05.membership_complete_leaf", "Akd.C05.nonmembership_complete",
+                     "Akd.C08.markers_no_panic", "Akd.C08.past_lt_start", "Akd.C08.future_bounds"],
+        "streams": ["l1.dir.c03"],
+        "rule": "histories as in C02; for every label: Complete and MostRecent(n) for n in {1,2,3,total,total+1,1000}: real "
+                "HistoryProof compared with the model's; oracle line spec.history: real key_history_verify result list vs the "
+                "specification's version list (newest first, all or newest n)",
+        "assumptions": [],
+    },
+    "C04": {
+        "thm_module": ["AkdModel.Thm.C01a"],
+        "theorems": ["Akd.C01.wf_unique", "Akd.C01.ofLeaves_perm"],
+        "streams": ["l1.dir.c04"],
+        "rule": "histories of up to 12 epochs; at several points ALL pairs (s,e) in [0,E+1]^2: the real audit proof compared with the "
+                "model's (as sets) and verified by the real audit_verify against the recorded published root hashes; oracle: "
+                "valid ranges verify, invalid ranges are refused",
+        "assumptions": [],
+    },
+    "C20": {
+        "thm_module": ["AkdModel.Thm.C05"],
+        "theorems": ["Akd.C05.membership_sound_leaf"],
+        "streams": ["l1.dir.c20"],
+        "rule": "histories with tombstone_value_states(label, cut) at random points (cut below the label's latest update), followed by "
+                "further publishes; after each: epoch hash vs specification (unchanged), every label's lookup (oracle spec.lookup), "
+                "every label's history for 4 parameters in both verification modes (oracle spec.history.tomb: allow => same "
+                "versions/epochs with tombstoned values empty; default => rejected iff the range contains a tombstoned entry), audit",
+        "assumptions": [],
+    },
+    "C05": {
+        "thm_module": "AkdModel.Thm.C05",
+        "theorems": ["Akd.C05." + t for t in [
+            "membership_complete", "membership_complete_leaf", "nonmembership_complete", "membership_sound",
+            "membership_sound_leaf", "nonmembership_sound", "membership_unbound_witness",
+            "membership_sound_legacy_partial", "nonmembership_unsound_witness", "nonmembership_witness_rejected",
+            "emptyLabelFresh_whatsappV1", "emptyLabelFresh_experimental", "nonmembership_complete_fails_empty"]]
+            + ["Akd.Cfg.whatsappV1_lawful", "Akd.Cfg.experimental_lawful"],
+        "streams": ["l1.trie"],
+        "rule": "tries built through the real Azks::batch_insert_nodes: all prefix-free subsets of short labels embedded in "
+                "256 bits, byte-boundary sets (shared prefixes 0..255), random sets up to 200 leaves, one or several epochs, both "
+                "configurations; for every member and for non-members sharing prefixes with members: honest proofs (compared "
+                "field by field, digests via term evaluation with the real hash) and the symbolic adversary (every ancestor as "
+                "anchor, children swapped/emptied/relabelled, paths truncated at either end, directions flipped, sibling and parent "
+                "labels altered, hash replaced by root/sibling/zero, other members' proofs relabelled); oracle on the real "
+                "verifiers: accepted => statement true of the inserted leaf set, honest proof => accepted",
+        "assumptions": [],
+    },
     "C08": {
         "thm_module": "AkdModel.Thm.C08",
         "theorems": ["Akd.C08.history_history_agree", "Akd.C08.markers_no_panic", "Akd.C08.past_lt_start",
